@@ -95,7 +95,7 @@ theorem lbufRegion_lines (s : VS) (r1 r2 : Int) (h0 : 0 ≤ r1) (h12 : r1 ≤ r2
 theorem viYank_eq (r1 o1 r2 o2 : Int) (ln : Bool) (s s' : VS) (a : Nat) (h : viYank r1 o1 r2 o2 ln s = Res.ok a s') :
     ∃ region, lbufRegion s r1 (if ln then 0 else o1) r2 (if ln then -1 else o2) = some region ∧
       s' = { s with ed := { s.ed with regs := s.ed.regs.put s.ybuf region (if ln then 1 else 0),
-                                      xrow := r1, xoff := if ln then s.ed.xoff else o1 } } ∧ a = 0 := by
+                                      xrow := r1, xoff := if ln then s.ed.xoff else o1 } } ∧ a = VC_COL := by
   unfold viYank at h
   simp only [bind_apply, get_apply] at h
   cases hreg : lbufRegion s r1 (if ln then 0 else o1) r2 (if ln then -1 else o2) with
